@@ -407,7 +407,12 @@ KF_LinkToHidden(O, multi, l) == l.prod \in TagLinkProds /\ Targets(O, multi, l.f
 \* the lists of root modules (moduleIndex, index.html) are not filtered on visibility
 KF_HiddenRootListed(O, l) == l.prod \in {"moduleIndex", "indexRoots"} /\ \E r \in HiddenSet(O) : O[r].root /\ O[r].file = l.file /\ l.frag = ""
 
+\* a section title of a docstring links back to the ToC entry id of the LAST build_table_of_content() call made before
+\* the docstring was rendered; sidebar.py rebuilds the ToC (fresh ids) for every ObjContent, also on other pages
+KF_TocBackrefStale(l) == l.prod = "tocBackref" /\ l.file = l.page /\ l.frag # ""
+
 KfLink(O, S, multi, l) == IF KF_EncodedFilename(S, l.file) THEN "percent-encoded-page-filename"
+                          ELSE IF KF_TocBackrefStale(l) THEN "toc-backref-stale-id"
                           ELSE IF KF_SupersededListed(O, l) THEN "superseded-duplicate-listed"
                           ELSE IF KF_InheritedDocLink(O, l) THEN "inherited-docstring-samepage-link"
                           ELSE IF KF_LinkToHidden(O, multi, l) THEN "link-to-hidden-object"
